@@ -13,7 +13,7 @@ EXTRA_MODULES = ['PyhmsVerif.Props.EngineDE', 'PyhmsVerif.Props.EngineSEA']
 LEVEL = 'proof'
 LEVEL_TEXT = 'Theorem (inductive invariant, every reachable state, all configurations and event sequences): while no cutoff wrapper has refused a request, per level the sum of the demes counters equals the number of objective invocations of that level; hard budget for any wrapper stack and call sequence (C16.cutoff_hard). Tie: trace refinement (the model computes every counter and every evaluation-limit verdict itself; dumps carry per-deme counters, totals and invocation counts) + direct monitor at every GSC consult + minimize() budget sweep. NEW (run level, minimize): C03_budget_run / minimize_budget — for every configuration whose levels all evaluate through one wrapper stack that is the single layer cutoff N (the tree minimize(maxfun=N) builds: checked on every run by capturing the TreeConfig that minimize hands to DemeTree), in every reachable state the wrapper counter (reported as nfev) equals the number of objective invocations made so far and never exceeds N: the budget is hard for whole runs and nfev is exact. C16_cutoff_hard_run: an evaluation-cutoff wrapper anywhere in a stack is hard for whole runs of any configuration. ENGINE LEVEL (Model/Engine.lean, Props/EngineDE.lean): one whole generation of DE.run / SHADE.run is in the model, deterministic given the generator draws (donor arithmetic in binary64, reflect repair, crossover mask incl. the row-zeroing quirk, fitness carry-over, which rows are evaluated, replacement), and is diffed bit-exactly against the real engines with recorded draws: deGen_requests — in one DE generation the objective is invoked exactly once per trial row that differs from its parent row, in row order. SEA FAMILY (Engine.seaOffspring, Props/EngineSEA.lean): one pass of the variational pipeline (tournament = first best contestant, arithmetic crossover in binary64, Gaussian mutation with toroidal repair or uniform mutation, loss of fitness on changed rows, evaluation in row order) is in the model and diffed bit-exactly against BaseSEA.run with recorded draws: seaOffspring_requests — the objective is invoked once per row that lost its fitness, in row order.'
 LEVEL_NOTE = 'Trusted: Lean kernel + standard axioms; the hand-written tree model (Tree.step) is tied to DemeTree.run by trace refinement on sampled runs (every run is re-executed by the model, dumps and sprout stages diffed); numerical engines (NumPy RNG, cma, scipy), objective values and user-defined stop-condition verdicts are environment; monitors trusted as failing-input search. ScipyNfevExact: result.nfev equals the number of objective calls scipy made (the model rejects a local search whose nfev differs from its requests). minimize() is covered by the same runs through its own configuration (see the minimize slice).'
-TECHNIQUE = "trace refinement against the Lean tree model (Tree.step re-executes real runs) + direct monitors"
+TECHNIQUE = "Lean 4 theorems (inductive invariants of the tree machine Tree.step, proved for all configurations and event sequences) tied to the code by trace refinement (Tree.step re-executes real runs; engine generations replayed bit-exactly by the engine model) + direct monitors as failing-input search"
 RULE = "case = one traced run of a random configuration (1-3 levels, engine per level from the full list, every shipped GSC/LSC kind plus user-defined ones, both stock sprout mechanisms and user-composed chains, hibernation on/off, both directions, decimal boxes, optional cutoff/precision/stats wrappers, shared or per-level problems); non-trivial = run with >= 2 demes and >= 2 metaepochs; distinct by configuration hash"
 ASSUMPTIONS = ["objective is deterministic and never returns NaN", "runs are capped at 12 metaepochs by a user-level composite stop condition"]
 FORCE = None
